@@ -1,6 +1,6 @@
 (* C16: the lemmas in the exact shape of the property theorems. *)
 From V Require Import Common.Base C16.Checked C16.Spec C16.Wtf8 C16.Wtf8Proofs C16.Vlq16 C16.Vlq16Proofs
-  C16.CssNum C16.CssNumProofs C16.Pieces C16.PiecesProofs C16.Packet C16.PacketProofs C16.CssIdent C16.CssIdentProofs C16.JsxEntities C16.JsxEntitiesProofs.
+  C16.CssNum C16.CssNumProofs C16.Pieces C16.PiecesProofs C16.Packet C16.PacketProofs C16.CssIdent C16.CssIdentProofs C16.JsxEntities C16.JsxEntitiesProofs C16.CssLex C16.CssLexProofs.
 
 Lemma all_bytes_bytes_ok s : all_bytes s <-> bytes_ok s.
 Proof. reflexivity. Qed.
@@ -68,3 +68,24 @@ Proof. intros lk t Hb. apply safe_not_crash_hang. apply decodeJSXEntities_total.
 
 Lemma weak_guard_decodeJSXEntities_crashes : forall lookup, decodeJSXEntities false lookup [38; 59] = Crash.
 Proof. exact decodeJSXEntities_weak_guard_crashes. Qed.
+
+Lemma total_css_consumeEscape : total_on all_bytes run_escape.
+Proof. intros t Hb. apply safe_not_crash_hang. apply run_escape_total. exact Hb. Qed.
+Lemma total_css_consumeString : total_on all_bytes run_string.
+Proof. intros t Hb. apply safe_not_crash_hang. apply run_string_total. exact Hb. Qed.
+Lemma total_css_consumeURL : total_on all_bytes run_url.
+Proof. intros t Hb. apply safe_not_crash_hang. apply run_url_total. exact Hb. Qed.
+Lemma total_css_consumeName : total_on all_bytes run_name.
+Proof. intros t Hb. apply safe_not_crash_hang. apply run_name_total. exact Hb. Qed.
+
+(* the progress lemma of the cursor, in the shape used by Properties.v *)
+Lemma css_step_progress : forall text l, all_bytes text -> 0 <= cur l <= len text ->
+  exists l', step text l = Ok l' /\ cur l <= cur l' <= len text /\
+             (cur l < len text -> cur l < cur l') /\ (cur l = len text -> cp l' = eof).
+Proof.
+  intros text l Hb Hw. destruct (step_spec text Hb l Hw) as (l' & E & Hw' & Hc & Hr & Hm & Hs & Hp).
+  exists l'. split; [exact E|]. unfold wf in Hw'. split; [lia|]. split; [exact Hp|].
+  intros Heq. unfold step in E. rewrite from_ok in E by lia. cbn [bind] in E.
+  rewrite Heq in E. unfold len in E. rewrite Nat2Z.id in E. rewrite skipn_all in E.
+  change (utf8_decode []) with (RuneError, 0) in E. cbv beta iota in E. inversion E. reflexivity.
+Qed.
